@@ -306,7 +306,7 @@ theorem cur_setContextCS {s : St} (h : Cur s) (ha : AllRec s) (c : Nat) (restart
             have herr : rr.err ≠ none := by
               simp only [Bool.and_eq_true] at hd14
               intro e; rw [e] at hd14; simp at hd14
-            obtain ⟨z, hz, hzc⟩ := (ha r rr hx).kx herr n hn'
+            obtain ⟨z, hz, hzc⟩ := (ha r rr hx).kx (Or.inl herr) n hn'
             have hxn' : s.insts[n]? = some x := hxn
             rw [hxn'] at hz; cases hz
             exact absurd hzc hnc
@@ -368,7 +368,7 @@ theorem cur_restartCS {s : St} (h : Cur s) (ha : AllRec s) : Cur (restartCS s).1
             recs := ((cancelOpt (normCtx s) x.cancelOf).recs.set r { x with cancelOf := none }).set r
               { x with cancelOf := none, exitedCh := none } } := by
           have hx' : (cancelOpt (normCtx s) x.cancelOf).recs[r]? = some x := by simpa using hx
-          have := (csok_set _ r x { x with cancelOf := none, exitedCh := none } hx' rfl (Or.inr rfl) (Or.inr rfl) (Or.inl rfl)).2
+          have := (csok_set _ r x { x with cancelOf := none, exitedCh := none } hx' rfl (Or.inr rfl) (Or.inr rfl) (Or.inl ⟨rfl, rfl⟩)).2
             ((csok_cancelOpt _ _).2 ha0)
           simpa using this
         have hc0 : (cancelOpt (normCtx s) x.cancelOf).ctx ≠ 0 := by simpa using hctx
@@ -542,7 +542,7 @@ theorem cur_timerBody {s : St} (h : Cur s) (ha : AllRec s) (t r : Nat) : Cur (ti
         simp [curInst, curCancel, curRec, hr, hlt, getElem_of_get hx hlt]
       have h' : Cur { s with recs := s.recs.set r { x with retry := none } } :=
         ⟨h.1.frame rfl rfl hci.1 hci.2, h.2.keep (cancMono_of_eq rfl rfl) rfl hci.1 rfl⟩
-      have ha' := (csok_set s r x { x with retry := none } hx rfl (Or.inl rfl) (Or.inl rfl) (Or.inl rfl)).2 ha
+      have ha' := (csok_set s r x { x with retry := none } hx rfl (Or.inl rfl) (Or.inl rfl) (Or.inl ⟨rfl, rfl⟩)).2 ha
       exact cur_startRec h'.1 ha' h'.2 r s.ctx x.exitedCh true hr rfl hc0
     · exact h
   · exact h
